@@ -83,6 +83,21 @@ func (env *Env) evalBool(e spec.Expr) smt.Term {
 	return v.L[0]
 }
 
+// evalBoolLazy evaluates a boolean operand; a reference to a call that did not happen on this path
+// (arg/ret of a missing event) makes that operand false instead of the whole clause.
+func (env *Env) evalBoolLazy(e spec.Expr) (t smt.Term) {
+	defer func() {
+		if r := recover(); r != nil {
+			if _, ok := r.(noSuchEvent); ok {
+				t = smt.False
+				return
+			}
+			panic(r)
+		}
+	}()
+	return env.evalBool(e)
+}
+
 func (env *Env) evalInt64(e spec.Expr) smt.Term {
 	v := env.eval(e)
 	w, signed, ok := intInfo(v.T)
@@ -108,9 +123,9 @@ func (env *Env) evalGoal(e spec.Expr) smt.Term {
 	case *spec.Binary:
 		switch e.Op {
 		case "==>":
-			return smt.Implies(env.evalBool(e.X), env.evalGoal(e.Y))
+			return smt.Implies(env.evalBool(e.X), env.evalGoalLazy(e.Y))
 		case "&&":
-			return smt.And(env.evalGoal(e.X), env.evalGoal(e.Y))
+			return smt.And(env.evalGoalLazy(e.X), env.evalGoalLazy(e.Y))
 		}
 	case *spec.Ident:
 		if m, ok := env.macros[e.Name]; ok {
@@ -118,6 +133,19 @@ func (env *Env) evalGoal(e spec.Expr) smt.Term {
 		}
 	}
 	return env.evalBool(e)
+}
+
+func (env *Env) evalGoalLazy(e spec.Expr) (t smt.Term) {
+	defer func() {
+		if r := recover(); r != nil {
+			if _, ok := r.(noSuchEvent); ok {
+				t = smt.False
+				return
+			}
+			panic(r)
+		}
+	}()
+	return env.evalGoal(e)
 }
 
 func copyMap(m map[string]Value) map[string]Value {
@@ -227,11 +255,11 @@ var binTok = map[string]token.Token{
 func (env *Env) binary(e *spec.Binary) Value {
 	switch e.Op {
 	case "&&":
-		return scalar(tBool, smt.And(env.evalBool(e.X), env.evalBool(e.Y)))
+		return scalar(tBool, smt.And(env.evalBoolLazy(e.X), env.evalBoolLazy(e.Y)))
 	case "||":
-		return scalar(tBool, smt.Or(env.evalBool(e.X), env.evalBool(e.Y)))
+		return scalar(tBool, smt.Or(env.evalBoolLazy(e.X), env.evalBoolLazy(e.Y)))
 	case "==>":
-		return scalar(tBool, smt.Implies(env.evalBool(e.X), env.evalBool(e.Y)))
+		return scalar(tBool, smt.Implies(env.evalBool(e.X), env.evalBoolLazy(e.Y)))
 	case "<==>":
 		return scalar(tBool, smt.Eq(env.evalBool(e.X), env.evalBool(e.Y)))
 	}
